@@ -142,6 +142,23 @@ static int run_hist(int argc, char **argv, int mode, char **outp, size_t *outn)
         if (mode) prep(Z[k], mode);
         size_t r = mpz_inp_raw(Z[k], fp); (void)r; fclose(fp); }
       i += 3; }
+    else if (!strcmp(op, "inp_str_sweep")) {     /* inp_str_sweep kind k base lo hi : the text readers on one token of every length lo..hi
+                                                    (kind 0 mpz_inp_str, 1 mpq_inp_str with a denominator, 2 mpf_inp_str with point and exponent) */
+      int kind = (int)arg_l(argv[i+1]), k = (int)arg_l(argv[i+2]), base = (int)arg_l(argv[i+3]); long lo = arg_l(argv[i+4]), hi = arg_l(argv[i+5]);
+      static char tb[1 << 16];
+      int live = kind == 0 ? zl[k % NV] : kind == 1 ? ql[k % NQ] : fl[k % NF];
+      for (long len = lo; live && len <= hi && len + 8 < (long) sizeof tb; len++) {
+        for (long j = 0; j < len; j++) tb[j] = (char)('1' + (j * 7 + len) % (base == 2 ? 1 : 7));
+        if (kind == 1 && len >= 3) tb[len / 2] = '/';
+        if (kind == 2 && len >= 6) { tb[len / 3] = '.'; tb[len - 3] = base <= 10 ? 'e' : '@'; tb[len - 2] = '-'; }
+        tb[len] = ' '; tb[len + 1] = 'x'; tb[len + 2] = 0;
+        FILE *fp = fmemopen(tb, (size_t) len + 2, "rb");
+        size_t r = kind == 0 ? mpz_inp_str(Z[k % NV], fp, base) : kind == 1 ? mpq_inp_str(Q[k % NQ], fp, base) : mpf_inp_str(F[k % NF], fp, base);
+        fclose(fp);
+        if (r != (size_t) len) { ok = 0; snprintf(why, sizeof why, "INP-STR-RETURN-%d-len-%ld-got-%lu", kind, len, (unsigned long) r); break; }
+        if (!all_redzones_ok()) { ok = 0; snprintf(why, sizeof why, "REDZONE-after-inp_str-%d-len-%ld", kind, len); break; }
+      }
+      i += 6; }
     else if (!strcmp(op, "zout_raw")) {
       int k = (int)arg_l(argv[i+1]);
       if (zl[k]) { char *mb = NULL; size_t ml = 0; FILE *fp = open_memstream(&mb, &ml); size_t w = mpz_out_raw(fp, Z[k]); fclose(fp);
